@@ -476,6 +476,24 @@ func famC17(g *Gen, o *Out, n int, thorough bool) {
 			nroots = 2 + g.pick(2)
 		}
 		var roots []cid.Cid
+		if c%3 != 2 && c < 14 {
+			// fixed corpus for the in-process pass: a link (carried by the archive, or lying in the output
+			// directory) towards a neighbour of the output directory — one whose name merely starts with
+			// the output directory's name included — and entries whose names run through that link
+			k := c % 7
+			tgt := strings.ReplaceAll([]string{"../out-old", "SB/out-old", "../out2", "../victim", "SB/victim", "../out-old/sub", "../out-old"}[k], "SB", sb)
+			var es []dagpb.PBLink
+			if c < 7 {
+				es = append(es, dirEntry("a", d.pbNode(ufsData(data.Data_Symlink, []byte(tgt), nil), nil)))
+			} else if fi, err := os.Lstat(outArg); err == nil && fi.IsDir() {
+				os.Remove(filepath.Join(sb, realOut, "a"))
+				os.Symlink(tgt, filepath.Join(sb, realOut, "a"))
+			}
+			es = append(es, dirEntry("a/keep", d.rawLeaf([]byte("NEW"))), dirEntry("a/b", d.rawLeaf([]byte("NEWB"))),
+				dirEntry("a/sub/x", d.rawLeaf([]byte("X"))), dirEntry("a/f", d.rawLeaf([]byte("F"))))
+			roots = append(roots, d.pbNode(ufsData(data.Data_Directory, nil, nil), es).(cidlink.Link).Cid)
+			nroots = 0
+		}
 		for i := 0; i < nroots; i++ {
 			var l ipld.Link
 			switch k := g.pick(10); {
